@@ -95,6 +95,11 @@ func (v *Env) Do(method, path, token string, body []byte, timeout time.Duration)
 	select {
 	case <-done:
 	case <-time.After(timeout + 2*time.Second):
+		// the handler has not returned: no answer (status 0), not the recorder's default 200
+		nw := httptest.NewRecorder()
+		nw.Code = 0
+		nw.Body.WriteString("<no answer within the time limit>")
+		return nw
 	}
 	return w
 }
